@@ -87,7 +87,9 @@ func (rt *runtime) cmplFunctionDeclaration(list []*nodeFunctionLiteral) {
 
 	for _, function := range list {
 		name := function.name
-		value := rt.cmplEvaluateNodeExpression(function)
+		// 13: a FunctionDeclaration closes over the VariableEnvironment and, unlike a
+		// named function expression, gets no binding of its own name inside itself.
+		value := objectValue(rt.newNodeFunction(function, stash))
 		if !stash.hasBinding(name) {
 			stash.createBinding(name, eval, value)
 		} else {
